@@ -222,6 +222,7 @@ def history_semantics(sem):
 
     funcs = (('yaw_to_heading', yaw_to_heading), ('heading_to_yaw', heading_to_yaw))
     cache = {}
+    handed_out = []          # (fn, unit, result object, its content when it was returned): re-checked at the end
 
     def ref(name, f, a, deg):
         outv = []
@@ -257,6 +258,7 @@ def history_semantics(sem):
                 for label, change in steps:
                     change(a)
                     r = f(a, deg=deg)
+                    handed_out.append((name, unit, r, bits(r)))
                     if not same(r, ref(name, f, a, deg)):
                         issue(name, unit, 'stale-or-history-dependent-result',
                               'sequence of calls on one array object: the call %s does not return the conversion of the current contents' % label)
@@ -298,6 +300,241 @@ def history_semantics(sem):
                     break
         except Exception as e:  # noqa
             issue('roundtrip', unit, 'exception', 'alternating call sequence raised %s' % type(e).__name__)
+    for i, (name, unit, r, was) in enumerate(handed_out):
+        if bits(r) != was:
+            issue(name, unit, 'result-aliases-input', 'an array returned by an earlier call changed its contents during later calls')
+        for (_, _, r2, _) in handed_out[i + 1:i + 3]:
+            if isinstance(r, np.ndarray) and isinstance(r2, np.ndarray) and r.size and np.shares_memory(r, r2):
+                issue(name, unit, 'result-aliases-input', 'arrays returned by different calls share memory')
+    return issues
+
+
+def _refmap(inp, out, unit, key):
+    sc = out['%s_%s' % (key, unit)]['scalar']
+    if any(v.startswith(('EXC', 'TYPE')) for v in sc):
+        return None
+    return dict(zip(inp[unit], sc))
+
+
+def compositions(inp, out, groups):
+    """Arrays composed of chosen classes of inputs (all inside the canonical range; all far outside; only wrap-point
+    neighbours; one foreign element at the first / middle / last position of an otherwise uniform array; interleaved),
+    so that any whole-array shortcut (np.all / np.any / min / max gated fast path) is exercised both ways.  Compared
+    bit-for-bit with the scalar results of the same inputs."""
+    issues = []
+    for unit, deg in (('deg', True), ('rad', False)):
+        g = groups.get(unit)
+        if not g:
+            continue
+        hexes = inp[unit]
+        small, wrap, far = g['small'], g['wrap'], g['far']
+        comps = []
+        for n in (1, 2, 5, 64, len(small)):
+            comps.append(('all inside the canonical range (%d)' % min(n, len(small)), small[:n]))
+        comps.append(('all far outside the range', far))
+        comps.append(('only wrap-point neighbours', wrap))
+        for host, hname in ((small, 'in-range'), (wrap, 'wrap-neighbour'), (far, 'far')):
+            for guest, gname in ((far, 'far'), (wrap, 'wrap-neighbour'), (small, 'in-range')):
+                if host is guest or not host or not guest:
+                    continue
+                h = host[:97]
+                for pos in (0, len(h) // 2, len(h)):
+                    for gi in (0, len(guest) // 3, len(guest) - 1):
+                        comps.append(('%s array with one %s element at position %d' % (hname, gname, pos), h[:pos] + [guest[gi]] + h[pos:]))
+        k = min(len(small), len(wrap), len(far))
+        comps.append(('in-range / wrap-neighbour / far interleaved', [v for t in zip(small[:k], wrap[:k], far[:k]) for v in t]))
+        for key, name, f in (('y2h', 'yaw_to_heading', yaw_to_heading), ('h2y', 'heading_to_yaw', heading_to_yaw)):
+            ref = _refmap(inp, out, unit, key)
+            if ref is None:
+                continue
+            for label, idx in comps:
+                if not idx:
+                    continue
+                hx_in = [hexes[i] for i in idx]
+                a = np.array([float.fromhex(h) for h in hx_in], dtype=np.float64)
+                try:
+                    r = f(a, deg=deg)
+                    got = [float(v).hex() for v in np.asarray(r).reshape(-1)]
+                except Exception as e:  # noqa
+                    got = 'EXC:%s' % type(e).__name__
+                want = [ref[h] for h in hx_in]
+                if got != want:
+                    j = next((i for i in range(len(want)) if not isinstance(got, list) or i >= len(got) or got[i] != want[i]), 0)
+                    issues.append({'fn': name, 'unit': unit, 'input_kind': 'composed-array', 'issue': 'array-differs-from-scalars',
+                                   'detail': '%s: element %d (input %r) gives %s, the scalar call gives %s'
+                                             % (label, j, float(a[j]), got[j] if isinstance(got, list) and j < len(got) else got, want[j]),
+                                   'length': len(idx)})
+                    break
+    return issues
+
+
+def forms_and_environment(inp, out, sem):
+    """Argument forms (Python int / bool, numpy scalars of other types, 0-d arrays, lists / tuples, masked arrays,
+    low-precision arrays), forms of the `deg` flag and its default, numpy's floating-point error state, non-finite
+    elements, import paths.  Integer-like and float64 forms must give exactly the float64 scalar results; lists and
+    tuples must either behave like arrays or raise TypeError/ValueError; float32/float16 forms must stay in range and
+    within a few ulp OF THEIR OWN PRECISION of the float64 result."""
+    issues = []
+
+    def issue(fn, unit, kind, what, detail):
+        if not any(i['fn'] == fn and i['unit'] == unit and i['issue'] == what and i['input_kind'] == kind for i in issues):
+            issues.append({'fn': fn, 'unit': unit, 'input_kind': kind, 'issue': what, 'detail': detail})
+
+    import fusion_engine_client.messages as pkg
+    for nm, f in (('yaw_to_heading', yaw_to_heading), ('heading_to_yaw', heading_to_yaw)):
+        if getattr(pkg, nm, f) is not f:
+            issue(nm, 'deg', 'import-path', 'access-paths-differ', 'fusion_engine_client.messages.%s is not fusion_engine_client.messages.defs.%s' % (nm, nm))
+
+    def h(v):
+        return float(v).hex()
+
+    for unit, deg in (('deg', True), ('rad', False)):
+        xs = [float.fromhex(v) for v in sem.get(unit, [])]
+        if len(xs) < 8:
+            continue
+        period = 360.0 if deg else 2.0 * np.pi
+        scale = 512.0 if deg else 8.0
+        ints = sorted({int(round(x)) for x in xs if abs(x) <= 1e6} | {0, 1, -1, 90, -90, 270, 300, 360, -360, 127, -128, 255})
+        for name, f in (('yaw_to_heading', yaw_to_heading), ('heading_to_yaw', heading_to_yaw)):
+            def ref(v):
+                return h(f(float(v), deg=deg))
+            try:
+                # --- forms of the deg flag, and its default --------------------------------------------------
+                for x in xs[:24]:
+                    want = ref(x)
+                    forms = [('positional', lambda: f(x, deg)), ('keyword', lambda: f(x, deg=deg)), ('int flag', lambda: f(x, deg=int(deg))),
+                             ('numpy bool flag', lambda: f(x, deg=np.bool_(deg))), ('all keywords', lambda: f(**{f.__code__.co_varnames[0]: x, 'deg': deg}))]
+                    if deg:
+                        forms.append(('default (no deg argument)', lambda: f(x)))
+                    for label, call in forms:
+                        try:
+                            got = h(call())
+                        except Exception as e:  # noqa
+                            got = 'EXC:%s' % type(e).__name__
+                        if got != want:
+                            issue(name, unit, 'deg-flag-form', 'default-unit-not-degrees' if label.startswith('default') else 'flag-form-differs',
+                                  '%s(%r) with %s gives %s, with deg=%s it gives %s' % (name, x, label, got, deg, want))
+                # --- integer-like scalars and arrays: exactly the float64 results ------------------------------
+                for v in ints:
+                    want = ref(v)
+                    cands = [('Python int', v), ('numpy int64', np.int64(v)), ('0-d int64 array', np.array(v, dtype=np.int64)), ('0-d float64 array', np.array(float(v)))]
+                    if -128 <= v <= 127:
+                        cands.append(('numpy int8', np.int8(v)))
+                    if 0 <= v <= 255:
+                        cands.append(('numpy uint8', np.uint8(v)))
+                    if v in (0, 1):
+                        cands += [('Python bool', bool(v)), ('numpy bool', np.bool_(v))]
+                    for label, arg in cands:
+                        try:
+                            r = f(arg, deg=deg)
+                            got = h(r) if np.ndim(r) == 0 else 'shape %r' % (np.shape(r),)
+                        except Exception as e:  # noqa
+                            got = 'EXC:%s' % type(e).__name__
+                        if got != want:
+                            issue(name, unit, label, 'scalar-form-differs', '%s(%r as %s) gives %s, the float gives %s' % (name, v, label, got, want))
+                for dt in (np.int8, np.int16, np.int32, np.uint8, np.uint16, np.bool_):
+                    info = (0, 1) if dt is np.bool_ else (np.iinfo(dt).min, np.iinfo(dt).max)
+                    vals = [v for v in ints if info[0] <= v <= info[1]]
+                    a = np.array(vals, dtype=dt)
+                    try:
+                        got = [h(v) for v in f(a, deg=deg)]
+                    except Exception as e:  # noqa
+                        got = 'EXC:%s' % type(e).__name__
+                    if got != [ref(v) for v in vals]:
+                        issue(name, unit, '%s array' % np.dtype(dt).name, 'int-array-differs', 'array of dtype %s gives other values than the same numbers as floats' % np.dtype(dt).name)
+                # --- lists / tuples: like arrays, or a clean TypeError / ValueError ------------------------------
+                for label, arg in (('list', list(xs[:9])), ('tuple', tuple(xs[:9])), ('empty list', []), ('nested list', [list(xs[:4]), list(xs[4:8])])):
+                    try:
+                        r = f(arg, deg=deg)
+                    except (TypeError, ValueError):
+                        continue
+                    except Exception as e:  # noqa
+                        issue(name, unit, label, 'exception', 'raises %s (neither a result nor TypeError/ValueError)' % type(e).__name__)
+                        continue
+                    want = [ref(v) for v in np.asarray(arg, dtype=np.float64).reshape(-1)]
+                    if np.shape(r) != np.shape(arg) or [h(v) for v in np.asarray(r).reshape(-1)] != want:
+                        issue(name, unit, label, 'bad-result-shape', 'accepted, but the result has shape %r / other values than the element-wise conversion (input shape %r)' % (np.shape(r), np.shape(arg)))
+                # --- masked arrays: unmasked elements like scalars, input untouched ------------------------------
+                data = np.array(xs[:12]); mask = np.array([i % 3 == 1 for i in range(12)])
+                ma = np.ma.masked_array(data.copy(), mask=mask.copy())
+                try:
+                    r = f(ma, deg=deg)
+                    rd = np.ma.getdata(r)
+                    if np.shape(r) != (12,) or any(h(rd[i]) != ref(data[i]) for i in range(12) if not mask[i]):
+                        issue(name, unit, 'masked array', 'array-differs-from-scalars', 'unmasked elements of a masked array give other values than the scalar calls')
+                    if isinstance(r, np.ma.MaskedArray) and not np.array_equal(np.ma.getmaskarray(r), mask):
+                        issue(name, unit, 'masked array', 'array-differs-from-scalars', 'the mask of the result differs from the mask of the input')
+                    if not np.array_equal(np.ma.getmaskarray(ma), mask) or np.ma.getdata(ma).tobytes() != data.tobytes():
+                        issue(name, unit, 'masked array', 'input-modified', 'the masked input array was changed by the call')
+                except (TypeError, ValueError):
+                    pass
+                # --- float32 / float16: in range and close, in their own precision -------------------------------
+                for dt in (np.float32, np.float16):
+                    lim = 6e4 if dt is np.float16 else 1e6
+                    vals = np.array([x for x in xs if abs(x) <= lim], dtype=dt)
+                    halfturn = dt(180.0) if deg else dt(np.pi)
+                    full = dt(360.0) if deg else dt(2.0) * dt(np.pi)
+                    for form, arg in (('array', vals), ('scalars', None)):
+                        try:
+                            res = f(vals, deg=deg) if form == 'array' else np.array([f(v, deg=deg) for v in vals])
+                        except Exception as e:  # noqa
+                            issue(name, unit, '%s %s' % (np.dtype(dt).name, form), 'exception', type(e).__name__)
+                            continue
+                        res = np.asarray(res)
+                        if res.shape != vals.shape or not np.issubdtype(res.dtype, np.floating):
+                            issue(name, unit, '%s %s' % (np.dtype(dt).name, form), 'bad-result-shape', 'shape %r dtype %s' % (res.shape, res.dtype))
+                            continue
+                        r64 = res.astype(np.float64)
+                        lo, hi = (0.0, float(full)) if name == 'yaw_to_heading' else (-float(halfturn), float(halfturn))
+                        if res.dtype == np.float64:
+                            lo, hi = (0.0, period) if name == 'yaw_to_heading' else (-period / 2, period / 2)
+                        bad = np.nonzero(~((r64 >= lo) & (r64 < hi)))[0]
+                        if bad.size:
+                            issue(name, unit, '%s %s' % (np.dtype(dt).name, form), 'out-of-range', 'input %r gives %r' % (float(vals[bad[0]]), float(r64[bad[0]])))
+                            continue
+                        want = np.array([float(f(float(v), deg=deg)) for v in vals])
+                        d = np.abs(r64 - want) % period; d = np.minimum(d, period - d)
+                        tol = (6.0 if deg else 16.0) * np.spacing(np.maximum(np.abs(vals), dt(scale))).astype(np.float64)
+                        if not deg:
+                            tol = tol + np.abs(vals.astype(np.float64)) * float(np.finfo(dt).eps)      # period constant rounded to this precision
+                        badc = np.nonzero(d > tol)[0]
+                        if badc.size:
+                            j = badc[0]
+                            issue(name, unit, '%s %s' % (np.dtype(dt).name, form), 'wrong-angle',
+                                  'input %r gives %r, the float64 conversion gives %r (tolerance %g)' % (float(vals[j]), float(r64[j]), float(want[j]), float(tol[j])))
+                # --- numpy error state: no spurious floating-point exception for finite input, same values ---------
+                a = np.array(xs + [5e-324, -5e-324, 2.2250738585072014e-308, 1.7976931348623157e308, -1.7976931348623157e308, 0.0, -0.0])
+                base = [h(v) for v in f(a, deg=deg)]
+                for state in ('raise', 'ignore', 'warn'):
+                    try:
+                        with np.errstate(all=state):
+                            import warnings
+                            with warnings.catch_warnings():
+                                warnings.simplefilter('error' if state == 'warn' else 'default')
+                                got = [h(v) for v in f(a.copy(), deg=deg)]
+                                sc = [h(f(float(v), deg=deg)) for v in a[-7:]]
+                        if got != base or sc != base[-7:]:
+                            issue(name, unit, 'np.errstate(all=%r)' % state, 'depends-on-error-state', 'results differ under np.errstate(all=%r)' % state)
+                    except Exception as e:  # noqa
+                        issue(name, unit, 'np.errstate(all=%r)' % state, 'spurious-fp-exception',
+                              'finite inputs raise %s under np.errstate(all=%r): %s' % (type(e).__name__, state, e))
+                # --- non-finite elements: NaN out, finite neighbours untouched, nothing raised ---------------------
+                for bad in (float('nan'), float('inf'), float('-inf')):
+                    a = np.array(xs[:16]); pos = [0, 7, 15]
+                    a[pos] = bad
+                    try:
+                        with np.errstate(all='ignore'):
+                            r = np.asarray(f(a, deg=deg), dtype=np.float64)
+                            rs = f(bad, deg=deg)
+                    except Exception as e:  # noqa
+                        issue(name, unit, 'array with %r' % bad, 'exception', 'an array containing %r raises %s' % (bad, type(e).__name__))
+                        continue
+                    if r.shape != a.shape or any(h(r[i]) != ref(a[i]) for i in range(16) if i not in pos):
+                        issue(name, unit, 'array with %r' % bad, 'array-differs-from-scalars', 'finite elements next to %r give other values than the scalar calls' % bad)
+                    elif not all(np.isnan(r[i]) for i in pos) or not np.isnan(float(rs)):
+                        issue(name, unit, 'array with %r' % bad, 'non-finite-input-not-nan', '%r is converted to %r (array) / %r (scalar) instead of NaN' % (bad, [float(r[i]) for i in pos], float(rs)))
+            except Exception as e:  # noqa
+                issue(name, unit, 'argument-forms', 'exception', 'the observation sequence raised %s: %s' % (type(e).__name__, e))
     return issues
 
 
@@ -342,7 +579,9 @@ def main():
         dflt[name] = r
     out['default_unit'] = dflt
     out['array_semantics'] = (array_semantics(inp.get('sem', {})) + history_semantics(inp.get('sem', {}))
-                              + large_arrays(inp, out, inp.get('lengths', [])))
+                              + large_arrays(inp, out, inp.get('lengths', []))
+                              + compositions(inp, out, inp.get('groups', {}))
+                              + forms_and_environment(inp, out, inp.get('sem', {})))
     json.dump(out, open(sys.argv[2], 'w'))
 
 
